@@ -430,6 +430,29 @@ class Engine(ExprMixin, StmtMixin):
                 return [(st, sq)]
             if attr == "squeeze":
                 return [(st, sq)]
+            if attr == "unique" and isinstance(sq.etype, TInt) and not args and set(kwargs) <= {"return_counts"}:
+                # assumed contract of torch.Tensor.unique (sorted=True default): the strictly increasing enumeration of the values that
+                # occur, every count >= 1 (nothing is said about the counts beyond that)
+                name = uid("unique")
+                U = z3.Function(name + "$val", z3.IntSort(), z3.IntSort())
+                Wt = z3.Function(name + "$wit", z3.IntSort(), z3.IntSort())
+                Ix = z3.Function(name + "$idx", z3.IntSort(), z3.IntSort())
+                Cn = z3.Function(name + "$cnt", z3.IntSort(), z3.IntSort())
+                ln = z3.Int(name + "$len")
+                k, j = z3.Int(uid("k")), z3.Int(uid("j"))
+                st.assume(ln >= 0, ln <= sq.len,
+                          z3.ForAll([k], z3.Implies(z3.And(0 <= k, k + 1 < ln), U(k) < U(k + 1)), patterns=[U(k + 1)]),
+                          z3.ForAll([k], z3.Implies(z3.And(0 <= k, k < ln), z3.And(0 <= Wt(k), Wt(k) < sq.len, _e_to_int(sq.elem(Wt(k))) == U(k),
+                                                                                  Cn(k) >= 1)), patterns=[U(k)]),
+                          z3.ForAll([j], z3.Implies(z3.And(0 <= j, j < sq.len), z3.And(0 <= Ix(j), Ix(j) < ln, U(Ix(j)) == _e_to_int(sq.elem(j)))),
+                                    patterns=[Ix(j)]))
+                eng.used_trusted.add("model:torch.Tensor.unique (sorted distinct values that occur, counts >= 1)")
+                u = VSeq(ln, lambda t: VInt(U(t)), INT); u.kind = sq.kind
+                rc = kwargs.get("return_counts")
+                if rc is None or z3.is_false(z3.simplify(eng.truth(rc, st))):
+                    return [(st, u)]
+                cn = VSeq(ln, lambda t: VInt(Cn(t)), INT); cn.kind = sq.kind
+                return [(st, VTuple([u, cn]))]
             raise Unsupported(f"seq.{attr}")
         return fn
 
@@ -906,6 +929,9 @@ class Engine(ExprMixin, StmtMixin):
                     self.oblige(s, f"ensures_on_raise{i}", "vc", self.spec_bool(e, s, {"exc": VStr(oc[1])}), fi.node, note=e)
             else:
                 raise Unsupported(f"outcome {oc[0]} escapes {target}")
+        if cover_pc is None and c.get("ensures"):
+            # every path ended in a rejection / raise: the post-conditions would be claimed without ever having been stated
+            raise Unsupported(f"no path of {target} returns normally under this contract (its ensures would be vacuous)")
         # canary: something that must be refutable on some reachable normal path (guards against an unsound pc)
         if cover_pc is not None:
             self.obligations.append(Obligation(f"{self.top_func}:cover:normal-return", "cover", cover_pc,
